@@ -14,7 +14,7 @@ def _dispatch(prop, t):
         return check_runtime.main_c14(t)
     if prop == "C04":
         from . import check_expr
-        return check_expr.check("C04", t, ["options"],
+        return check_expr.check("C04", t, ["options", "illsorted"],
             "every (graph, dictionary) CASE TLC exports for the family: all graphs of <= N nodes rooted at an Option "
             "(defaults: constant / template / factory / chained Option; domains: container / predicate / option-dependent "
             "predicate) x every dictionary over the keys the graph mentions (falsy values, templated strings, list indices, "
@@ -30,7 +30,7 @@ def _dispatch(prop, t):
             ["TLC + Json module trusted", "confectioner modelled as it behaves", "template parameters never contain braces"])
     if prop in ("C05", "C10", "C11", "C03", "C08", "C01", "C02", "C06", "C12", "C16", "C19", "C20", "C18"):
         from . import check_expr
-        fams = {"C05": ["combinators", "maps", "cases"], "C10": ["combinators", "options:light"], "C11": ["combinators", "options:light"],
+        fams = {"C05": ["combinators", "maps", "cases"], "C10": ["combinators", "options:light", "illsorted"], "C11": ["combinators", "options:light", "illsorted"],
                 "C03": ["combinators", "options:light", "presets:light", "maps"], "C08": ["presets", "siblings"],
                 "C01": ["caching", "presets:light", "siblings"],
                 "C02": ["caching"], "C06": ["combinators", "caching"], "C12": ["failing", "failing4", "cases"], "C16": ["caching"], "C19": ["classes"], "C20": ["pickling"], "C18": ["combinators:light", "caching"]}[prop]
